@@ -21,7 +21,7 @@ func init() {
 		Title: "Storage codecs round-trip exactly and decoders never crash on bad bytes",
 		Decides: "every encode-type / block-type / compression-type tag an encoder can emit is a case of the matching decoder (Int64ListToBytes vs BytesToInt64List, uint64 block types, compress types, tag encoders), and value types handled by tag encoders are handled by tag decoders; " +
 			"a narrowing conversion in an encoder sits under a range test that fits the narrower width (a one-byte length can hold every length the branch admits); " +
-			"lengths and counts read from the input bytes are compared with the remaining input before they bound a slice or an allocation, and the comparison is made before any conversion to a signed int; the set of panic sites reachable from error-returning decoders is exactly the reviewed caller-contract assertions.",
+			"lengths and counts read from the input bytes are compared with the remaining input before they bound a slice or an allocation, and the comparison is made before any conversion to a signed int; the set of panic sites reachable from error-returning decoders is exactly the reviewed caller-contract assertions.; the in-place string-array decoder is only ever applied to bytes its caller owns (a clone on some path, or a reviewed caller that receives a private copy): a dictionary entry shared by the rows of a block is never un-escaped in place",
 		NotDecided: "round-trip equality (incl. decimal float scaling and its overflow refusal), termination, constant-offset indexing in fixed-stride loops.",
 		Technique:  "emit⊆handle constant-set agreement on the typed syntax tree and SSA; guarded narrowing check by constant evaluation; SSA taint from wire reads to slice/alloc bounds with dominance; static call-graph reachability of panic sites",
 		Run:        runC11,
@@ -266,6 +266,47 @@ func runC11(c *core.Ctx) {
 		r.Undecide(rule, "error-returning decoders", "", fmt.Sprintf("only %d decoders found", ndec))
 	}
 	r.Floor(rule, 2)
+
+	// the in-place array decoder only ever writes into bytes its caller owns: a dictionary-encoded column hands
+	// the same entry to every row that carries the value, so the engines decode a private copy (at least
+	// whenever the value contains the escape byte, i.e. whenever the decoder would write)
+	{
+		rule := "c11.inplace-decode-owns-bytes"
+		reviewed := map[string]string{
+			"pkg/pipeline/sdk.DecodeTagValueInto":        "the engine hands it a per-row arena copy (trace/pipeline_chain.go)",
+			"banyand/internal/dump.decodePackedStrArray": "offline dump tool decoding a private copy",
+			"pkg/encoding.UnmarshalVarArray":             "the thin wrapper itself",
+		}
+		n := 0
+		for _, f := range r.P.ModuleFuncs("banyand/internal/sidx", "banyand/trace", "banyand/stream", "banyand/measure", "pkg/filter", "pkg/pipeline/sdk", "banyand/internal/dump", "pkg/encoding") {
+			for _, in := range ssax.Find(f, func(in ssa.Instruction) bool {
+				cc := ssax.Common(in)
+				if cc == nil {
+					return false
+				}
+				nm := ssax.CalleeName(cc)
+				return nm == "pkg/encoding.UnmarshalVarArray" || nm == "pkg/encoding/vararray.UnmarshalVarArray"
+			}) {
+				n++
+				fname := ssax.FuncName(f)
+				construct := fmt.Sprintf("%s: in-place array decode #%d works on bytes the function owns", fname, n)
+				if why, ok := reviewed[fname]; ok {
+					r.Hold(rule, construct, r.pos(in), "reviewed: "+why)
+					continue
+				}
+				src := ssax.Common(in).Args[0]
+				owned := flowsFromCallWhere(src, func(c *ssa.Call) bool {
+					nm := ssax.CalleeName(c.Common())
+					return nm == "bytes.Clone" || nm == "slices.Clone" || nm == "builtin:append" || nm == "builtin:copy"
+				}, 0)
+				if _, isMake := src.(*ssa.MakeSlice); isMake {
+					owned = true
+				}
+				r.Check(owned, rule, construct, r.pos(in), "the bytes handed to the in-place decoder come straight from the caller (a dictionary entry shared by every row with that value): the second row is decoded from already un-escaped bytes and returns different elements than were written, or fails to decode")
+			}
+		}
+		r.Floor(rule, 4)
+	}
 }
 
 // narrowingFits: for every If "X < T" / "X <= T" (T constant) in fn, every conversion to a narrower unsigned
